@@ -41,11 +41,16 @@ def current_collection():
         return None
 
 
+UNKNOWN = object()
+
+
 def current_pairs():
+    """None: nothing installed; UNKNOWN: something is installed but its layout cannot be read."""
     cur = current_collection()
     if cur is None:
         return None
-    return list(getattr(cur, "handler_pairs", []) or [])
+    pairs = getattr(cur, "handler_pairs", UNKNOWN)
+    return UNKNOWN if pairs is UNKNOWN else list(pairs or [])
 
 
 def global_probes():
